@@ -136,7 +136,11 @@ def _term(t, lo, bo):
     if k == "drop":
         return [t[0], t[1], "drop", _place(t[3], lo), t[4] + bo, _bo(t[5], bo)]
     if k == "call":
-        return [t[0], t[1], "call", t[3], [_op(a, lo) for a in t[4]], _place(t[5], lo), _bo(t[6], bo), _bo(t[7], bo)] + list(t[8:])
+        fd = t[3]
+        if isinstance(fd, dict) and fd.get("ind") and fd.get("place"):
+            fd = dict(fd)
+            fd["place"] = _place(fd["place"], lo)
+        return [t[0], t[1], "call", fd, [_op(a, lo) for a in t[4]], _place(t[5], lo), _bo(t[6], bo), _bo(t[7], bo)] + list(t[8:])
     if k == "assert":
         return [t[0], t[1], "assert", _op(t[3], lo), t[4], t[5], t[6] + bo, _bo(t[7], bo)]
     return list(t)
@@ -399,6 +403,36 @@ def _thread_constant_returns(blocks, bo, n, ret_local, target):
             _redirect(blocks, i, how, new_start)
 
 
+def _devirtualise(blocks, bo, n, fnconst):
+    """A helper that takes a function by value (`fn run_deeper(&mut self, parse: fn(&mut Self) -> R)`) and is spliced in at a
+    call that passes a function item: its indirect call `parse(self)` is a direct call of that function."""
+    if not fnconst:
+        return
+    defs = {}
+    for i in range(bo, bo + n):
+        for st in blocks[i]["s"]:
+            if st[2] == "=" and not st[3][1]:
+                defs.setdefault(st[3][0], []).append(st[4])
+    for i in range(bo, bo + n):
+        t = blocks[i]["t"]
+        if t[2] != "call" or not isinstance(t[3], dict) or not t[3].get("ind") or not t[3].get("place") or t[3]["place"][1]:
+            continue
+        l = t[3]["place"][0]
+        for _ in range(4):
+            if l in fnconst:
+                break
+            ds = defs.get(l, [])
+            if len(ds) == 1 and ds[0][0] == "use" and ds[0][1][0] in "cm" and not ds[0][1][1][1]:
+                l = ds[0][1][1][0]
+            else:
+                break
+        if l in fnconst:
+            v = fnconst[l][2]
+            nt = list(t)
+            nt[3] = {"d": v.get("fn"), "da": v.get("fna") or v.get("fn"), "r": v.get("fn"), "ra": v.get("fna") or v.get("fn"), "self": "", "local": True, "devirt": True}
+            blocks[i] = {"c": blocks[i]["c"], "s": blocks[i]["s"], "t": nt}
+
+
 def _scc_ids(prog):
     """function name -> id of its non-trivial strongly connected component of the raw call graph (direct calls only)"""
     memo = prog.__dict__.get("_scc_ids")
@@ -536,6 +570,7 @@ def _inline_raw(prog, name, depth, stack):
                         elif gt[2] == "resume" and unwind is not None:
                             nb["t"] = [gt[0], gt[1], "goto", unwind]
                         blocks.append(nb)
+                    _devirtualise(blocks, bo, len(g["blocks"]), {lo + 1 + k: a for k, a in enumerate(t[4]) if a[0] == "k" and a[1] == "fn" and isinstance(a[2], dict)})
                     _thread_constant_returns(blocks, bo, len(g["blocks"]), lo, target)
                     out.setdefault("inl_ret", list(raw.get("inl_ret", [])))
                     out["inl_ret"] = out["inl_ret"] + [lo] + [x + lo for x in g.get("inl_ret", [])]
